@@ -44,8 +44,17 @@ CLAIMS = {
             "section-header count; R-LOOPPROG (termination): no loop reachable from the readers relies for its progress on a "
             "callee that may decline to write its out-parameter while the result of the call is discarded (one site "
             "found - abidw hung on a `../` .gnu_debugaltlink - and repaired); R-ELFBOUND/WRAP: a size test over a sum of "
-            "file-derived counts is evaluated in a type wider than the counts, or written so that nothing can wrap",
-            "elfutils' own memory safety; the DWARF part of the reader; ppc64-only paths are listed as undecided",
+            "file-derived counts is evaluated in a type wider than the counts, or written so that nothing can wrap; "
+            "std::string built from a nullable libelf string is a dereference (R-ELFNULL); R-SCNINDEX: the result of "
+            "elf_getscn() for an index that is a word of the file (flow-sensitive provenance through locals, parameters "
+            "and reference out-parameters) is tested, never asserted; R-HANDLEARG: a null elfutils handle never reaches a "
+            "parameter the callee asserts; R-LINKWALK: a loop that follows links stored in section data has a counter of "
+            "its own; R-DEVM/*: the DWARF location-expression evaluator asserts nothing but its loop invariant, reads the "
+            "top of its stack only through total accessors or under a depth test, uses a value as a constant only after "
+            "is_const(), and tests every divisor (22 crashes / hangs of the base tree on one-word corruptions were found "
+            "by these rules or by reading, replayed and repaired)",
+            "elfutils' own memory safety; the DWARF part of the reader other than the expression evaluator; ppc64-only "
+            "paths are listed as undecided",
             "§3 R-ELFNULL, R-ELFBOUND, R-INASSERT; §4 C34"),
     "C43": ("finite-world interpretation of every accessor that switches over die_source, reaching-enumerator dataflow over "
             "the unit walks, and a guard rule at the classification site of type units",
@@ -88,8 +97,10 @@ CLAIMS = {
             "source location is only copied, never compared, branched on, ordered or hashed (one listed kernel-only "
             "exception): shifting lines or moving a definition between files cannot change equality or the diff; "
             "R-LOOPMEMO: nothing computed for one element of a loop is reused for the next through a never-reset flag; "
-            "R-NOPARMNAME: equality of function parameters reads nothing that carries the parameter's name",
-            "other neutral edits (TU layout, declaration order, DIE de-duplication) are runtime",
+            "R-NOPARMNAME: equality of function parameters reads nothing that carries the parameter's name; R-DECLORDER: "
+            "no lock-step walk of the class comparisons is over a member sequence kept in declaration order (table of "
+            "four accessors with reasons)",
+            "other neutral edits (TU layout, DIE de-duplication) are runtime",
             "§3 R-NOLOC; §4 C06"),
     "C12": ("non-interference by whole-program call-graph reachability (CHA) with a positive control",
             "no function reachable from the verdict entry points (compute_diff, has_*changes, filtering, "
@@ -180,7 +191,10 @@ CLAIMS = {
             "tables",
             "the temporary document of abilint --diff / abidw --abidiff is flushed on every path before it is re-read "
             "by path; no writer-only name exists (it could not survive read+write); R-ALIASFIFO: elf_symbol::add_alias "
-            "appends (the reader re-adds aliases in the order the writer lists them)",
+            "appends (the reader re-adds aliases in the order the writer lists them); R-SETKEY: the cached key that "
+            "orders the translation units of a corpus (std::set comparator -> get_absolute_path -> abs_path_) is "
+            "written by its getter only, so the order of the <abi-instr> elements is the same however the unit was "
+            "completed",
             "byte equality of the re-emitted document (ordering, ids) is runtime; iteration order is decided under C14",
             "§3 R-FLUSH, R-VOCAB; §4 C03"),
     "C36": ("AST/CFG rules: return-value provenance of the writer entry points, discarded-result check and "
@@ -199,7 +213,11 @@ CLAIMS = {
             "without a dominating check is either absent or a recorded, replayed finding (26 today); R-VFNCLASS: "
             "virtual-ness is only set on methods whose scope has static type class_decl_sptr (typed provenance through "
             "helpers); R-FILTERSYM: in the categorisation filters (abg-comp-filter.cc) a function's or variable's ELF "
-            "symbol - null for a declaration without symbol - is tested before it is dereferenced",
+            "symbol - null for a declaration without symbol - is tested before it is dereferenced; "
+            "read_context::get_corpus() is a nullable producer (a bare <abi-instr> document is read without a corpus; "
+            "setter / getter pairs are understood); R-TYPECYCLE: a builder of a referencable type registers what it "
+            "builds before it resolves the type ids the element refers to (five builders do not: recorded, replayed "
+            "findings - a self-referencing type-id exhausts the stack)",
             "general memory safety beyond these three fault classes; nine assertion sites are listed as undecided "
             "(sa/tables/c33_tables.json)",
             "§3 R-NULLABLE, R-IDX, R-INASSERT; §4 C33"),
@@ -259,7 +277,8 @@ CLAIMS = {
             "read_corpus_from_elf never pairs a null corpus with STATUS_OK; the ABIXML entry points return non-null "
             "only after a null-checked full expansion of the root element; R-XMLSRC: documents come from libxml2's "
             "pull reader (or from a push parser that is terminated unconditionally before its result is read); R-SYMSRC: "
-            "a binary whose own symbol table cannot be loaded is not silently given the one of its debug-info file",
+            "a binary whose own symbol table cannot be loaded is not silently given the one of its debug-info file; "
+            "R-HANDLEARG: a file elfutils cannot open (null handle) reaches the status, not an assertion",
             "that libxml2 / elfutils fail on every corruption",
             "§3 R-LOADFAIL, R-EXPAND; §4 C09"),
     "C30": ("exit-status abstract interpretation of abipkgdiff (kill rule, field-wise accumulation, marker predicate) "
@@ -276,7 +295,8 @@ CLAIMS = {
             "both halves look the interface's symbol up in the other corpus; any lookup / version treatment present in "
             "one half only is reported (today: the default-version rule of the addition half, four recorded findings "
             "replayed with versioned vs unversioned exports); R-MIRROR/GUARD: a mirrored lookup runs under the same "
-            "conditions in both halves",
+            "conditions in both halves; the events of helpers that are handed one of the two corpora are followed into "
+            "the helper, and a by-name lookup is a different event from a by-name-and-version one",
             "the edit scripts and the matching of changed interfaces (runtime); the same set of changed interfaces in "
             "both directions",
             "§8.6 (added after the design: C11 was first declared not applicable)"),
@@ -307,7 +327,9 @@ CLAIMS = {
             "diff::is_filtered_out(); two atoms are (recorded, replayed findings: a vtable change that the default mode "
             "filters as redundant loses the bit that --leaf-changes-only sets); R-SIMILARLEAF: for the type kinds whose "
             "diff nodes the leaf marker drops (pointer, reference, array) types_have_similar_structure compares the kind's "
-            "own attributes also behind a pointer, so that the difference is somebody's local change",
+            "own attributes also behind a pointer, so that the difference is somebody's local change; R-SAMETYPELOCAL: "
+            "where equals(class_or_union) classifies a difference between two data members through their types, the world "
+            "`equal types` (offset / name / bit position differ) always yields a local change kind, helpers included",
             "agreement of the CHANGE bit (two different predicates over different counters: leaf-node marking, runtime); "
             "the impacted-interfaces clause",
             "§8.6 (added after the design: C13 was first declared not applicable)"),
